@@ -1509,6 +1509,20 @@ struct TemplateCore {
             }
 
             case QOperation::Remainder: { // %
+                const SizeT64I divisor = ((right.Type == ExpressionType::RealNumber) ? SizeT64I(right.Value.Number.Real)
+                                                                                     : right.Value.Number.Integer);
+
+                if (divisor == 0) {
+                    return false;
+                }
+
+                if (divisor == -1) {
+                    // x % -1 is 0; INT64_MIN % -1 traps.
+                    left.Value.Number.Integer = 0;
+                    left.Type                 = ExpressionType::IntegerNumber;
+                    break;
+                }
+
                 left.Value.Number.Integer = (left % right);
                 left.Type                 = ExpressionType::IntegerNumber;
                 break;
